@@ -127,7 +127,7 @@ def gen_plan(rng, idx, fault_population=False):
             if rng.random() < 0.5:
                 kind, form = rng.choice(DECOY_FORMS)
                 frs.insert(rng.randrange(1, len(frs) + 1),
-                           docgen.frag(kind, form % d))
+                           docgen.frag(kind, form % d, decoy_target=d + '.tex'))
         if rng.random() < 0.2:
             frs.insert(rng.randrange(len(frs) + 1), docgen.f_footnote(rng, W, {}))
         if local_def:
@@ -171,6 +171,11 @@ def gen_plan(rng, idx, fault_population=False):
         else:
             skip = '.*' + re.escape(stem[-1]) + '\\.tex'
     argv = ['--lt-command', 'simlt', '--include']
+    nosp = rng.random() < 0.15
+    if nosp:
+        # --no-specials: LT-SKIP comments and \LTskip are inert, what stands
+        # inside them IS included (and proofread)
+        argv.append('--no-specials')
     if use_define:
         files['cdefs.tex'] = {'frags': [docgen.frag(
             'defs', '\\def\\incw#1{\\input{#1}}\n\\def\\cdir{sub}\n')]}
@@ -186,6 +191,7 @@ def gen_plan(rng, idx, fault_population=False):
     plan = {'kind': 'shell', 'argv': argv, 'files': files, 'peer': peer,
             'names': roots, 'roots': roots, 'skip': skip, 'graph_names': names,
             'decoys': [d + '.tex' for d in decoys], 'trace_stderr': True,
+            'nosp': nosp,
             'open_budget': 10 * (len(files) + 2), '_index': idx}
     if fault_population:
         victim = rng.choice(names)
@@ -257,6 +263,13 @@ def plan_edges(plan):
         for fr in spec['frags']:
             for t in fr.get('edge', []):
                 order.append(names[t])
+            if plan.get('nosp') and fr['k'] == 'decoy_skip' \
+                    and fr.get('decoy_target'):
+                # with --no-specials the LT-SKIP comments are inert: what
+                # stands between them is an inclusion, not a decoy.  (\LTskip{
+                # \input{x}} stays unfollowed: argument of a declared macro,
+                # dropped by extraction mode - outside the claim, §4 C18)
+                order.append(fr['decoy_target'])
         edges[n] = order
     return edges
 
@@ -441,6 +454,11 @@ def evaluate(plan):
         probes['cycle'] = 1
     if '--define' in plan['argv']:
         probes['def_wrappers_from_define_file'] = 1
+    if plan.get('nosp'):
+        probes['no_specials'] = 1
+        if any(fr['k'] == 'decoy_skip'
+               for sp in plan['files'].values() for fr in sp['frags']):
+            probes['no_specials_makes_decoy_an_inclusion'] = 1
     if any('\\locinc' in fr['s'] for sp in plan['files'].values()
            for fr in sp['frags']):
         probes['def_wrapper_in_document'] = 1
@@ -551,6 +569,11 @@ def shrink(plan):
             c = copy.deepcopy(plan)
             del c['files'][n]['frags'][i]
             yield c
+    if plan.get('nosp'):
+        c = copy.deepcopy(plan)
+        c['argv'].remove('--no-specials')
+        c['nosp'] = False
+        yield c
     # drop the skip option
     if plan['skip'] is not None:
         c = copy.deepcopy(plan)
